@@ -121,6 +121,36 @@ theorem write_appends (maxChunk : Nat) (hm : 1 ≤ maxChunk) (j : Journal) (batc
 
 example : (serviceWrite 20 [⟨[[1], [2]], 30⟩] [⟨5, [7, 7]⟩, ⟨0, [8]⟩, ⟨9, List.replicate 20 1⟩, ⟨1, [9]⟩]).2.calls.length = 2 := by decide
 
+/-- **Acknowledged ⇒ every event of the batch was handed to a chunk, whatever fails**: in an environment where ANY iteration's
+`jrnl.Write` may fail with nothing written (`faultAt`: the next chunk cannot be created — descriptors exhausted, directory
+gone —, the context or the chunk is closed; at the first iteration or after the head of the batch already went into earlier
+chunks), for every `maxChunkSize ≥ 1`, journal, batch and fault pattern: `Service.Write` stores a PREFIX of the batch after the
+old records, in order, and **if it returns no error the prefix is the whole batch**. Consumes the regenerated fact about the
+guard `if err1 != nil { if n <= 0 { err = … }; break }` (`writeErrGuardIsNLeZero`): with the guard `!weInit` the error of an
+iteration that follows a partial write is dropped and this theorem breaks. (`journal.Write` never returns `n > 0` together
+with an error — it returns `nil` as soon as something was written — so the model's failing call has `n = 0`.) -/
+theorem acknowledged_write_is_complete_under_faults (faultAt : Nat → Journal → Bool) (maxChunk : Nat) (hm : 1 ≤ maxChunk)
+    (j : Journal) (batch : List Rec) :
+    let r := serviceWriteF faultAt maxChunk j batch
+    (∃ k, k ≤ batch.length ∧ readAll r.1 = readAll j ++ (batch.take k).map (·.data)) ∧
+    (r.2.err = false → readAll r.1 = readAll j ++ batch.map (·.data)) := by
+  intro r
+  have hg : Generated.C01.writeErrGuardIsNLeZero = true := by decide
+  obtain ⟨k, hk, h1, h2⟩ := serviceWriteLoopF_spec faultAt maxChunk hm hg (batch.length + 1) 0 j batch {} {} (by omega) rfl
+  refine ⟨⟨k, hk, h1⟩, fun he => ?_⟩
+  have hk' := h2 he
+  rw [hk', List.take_length] at h1
+  exact h1
+
+/-- non-vacuity: the context is cancelled while the second record is fetched; two records fit the chunk, the third needs a
+new chunk, whose creation fails: an error is returned and the stored prefix has two records. Without a fault the same batch
+is acknowledged and stored completely. -/
+example : (serviceWriteF (faultCancelAt 1) 20 [] [⟨1, [1, 1, 1, 1, 1, 1]⟩, ⟨2, [2, 2, 2, 2, 2, 2]⟩, ⟨3, [3]⟩]).2.err = true ∧
+    readAll (serviceWriteF (faultCancelAt 1) 20 [] [⟨1, [1, 1, 1, 1, 1, 1]⟩, ⟨2, [2, 2, 2, 2, 2, 2]⟩, ⟨3, [3]⟩]).1
+      = [[1, 1, 1, 1, 1, 1], [2, 2, 2, 2, 2, 2]] ∧
+    (serviceWriteF (fun _ _ => false) 20 [] [⟨1, [1, 1, 1, 1, 1, 1]⟩, ⟨2, [2, 2, 2, 2, 2, 2]⟩, ⟨3, [3]⟩]).2.err = false := by
+  decide
+
 /-- **The timestamp hull `iwrapper` reports is exact** (after /repo commit 6624754; regenerated fact
 `iwrapperUnsetIsFlag`): after handing out the records `r :: rs` — in this order, each possibly several times (`see_idem`) —
 since its creation (`resetMinMaxTs` is never called: regenerated fact `writeLoopResetsHull = false`), `minTs`/`maxTs` are the
